@@ -1074,10 +1074,16 @@ def model(ex, st, c, args):
     m = re.fullmatch(r'core::num::<impl i64>::checked_(add|sub|mul)', c)
     if m:
         x, y = args
-        w = {'add': lambda a, b: a + b, 'sub': lambda a, b: a - b, 'mul': lambda a, b: a * b}[m.group(1)]
-        wide = w(z3.SignExt(64, x.t), z3.SignExt(64, y.t))
-        res = z3.Extract(63, 0, wide)
-        fits = z3.SignExt(64, res) == wide
+        if m.group(1) == 'mul':
+            # 64x64 signed multiplication: z3's dedicated no-overflow predicates (a 128-bit product does not get through
+            # the SAT back end within minutes); agreement with i128 arithmetic on compiled std: kani harness checked_mul
+            fits = z3.And(z3.BVMulNoOverflow(x.t, y.t, True), z3.BVMulNoUnderflow(x.t, y.t))
+            res = x.t * y.t
+        else:
+            w = {'add': lambda a, b: a + b, 'sub': lambda a, b: a - b}[m.group(1)]
+            wide = w(z3.SignExt(64, x.t), z3.SignExt(64, y.t))
+            res = z3.Extract(63, 0, wide)
+            fits = z3.SignExt(64, res) == wide
         t = B([(fits, 's'), (z3.Not(fits), 'n')])
         return some(Int(res, True)) if t == 's' else none()
     m = re.fullmatch(r'core::num::<impl i64>::checked_(div|rem)', c)
